@@ -31,6 +31,9 @@ ENCODINGS = {
     # class labels of different lengths (used by the classifier part of C09)
     "objnum_none": ([0, 1, 2], None, object),
     "str_long": (["a", "bb", "ccc"], "zzzz", "U4"),
+    # the array gets numpy's minimal string width: a declared class that has
+    # not been observed yet may be longer than every entry of y
+    "str_grow": (["a", "bb", "cccc"], "zz", "U"),
 }
 REG_SENTINELS = {"float_nan": float("nan"), "num_m999": -999.0}
 
